@@ -100,6 +100,14 @@ fn check_date_value(d: &DicomDate, y: u16, m: Option<u8>, day: Option<u8>, obs: 
             if d.is_precise() != day.is_some() {
                 obs.fail("C12:is_precise differs for a date", enc.clone());
             }
+            match d.range() {
+                Ok(r) => {
+                    if r.start() != Some(&e) || r.end() != Some(&l) {
+                        obs.fail("C12:range() of a date differs from (earliest, latest)", format!("{enc}: {r:?}"));
+                    }
+                }
+                Err(er) => obs.fail(format!("C12:range() of a valid date fails:{}", if day.is_some() { "precise" } else { "partial" }), format!("{enc}: {er}")),
+            }
         }
         (e, l) => obs.fail("C12:bounds of a valid partial date fail", format!("{enc}: {e:?} {l:?}")),
     }
@@ -214,6 +222,17 @@ fn check_time_value(t: &DicomTime, h: u8, m: Option<u8>, s: Option<u8>, frac: Op
                     format!("C12:latest time differs from the model:{}", match frac { Some((_, p)) => format!("precision{p}"), None => "no-fraction".into() }),
                     format!("{enc}: {l} want {wl:?}"),
                 );
+            }
+            match t.range() {
+                Ok(r) => {
+                    if r.start() != Some(&e) || r.end() != Some(&l) {
+                        obs.fail("C12:range() of a time differs from (earliest, latest)", format!("{enc}: {r:?}"));
+                    }
+                }
+                Err(er) => obs.fail(
+                    format!("C12:range() of a valid time fails:{}", if matches!(frac, Some((_, 6))) { "precise" } else { "partial" }),
+                    format!("{enc}: {er}"),
+                ),
             }
         }
         (e, l) => obs.fail("C12:bounds of a valid partial time fail", format!("{enc}: {e:?} {l:?}")),
@@ -486,6 +505,12 @@ fn check_dt(c: &DtCase, obs: &mut Obs) {
         (Ok(e), Ok(l)) => {
             check_precise("earliest", &e, we, c.tz_q, &txt, obs);
             check_precise("latest", &l, wl, c.tz_q, &txt, obs);
+            if let Err(er) = v.range() {
+                obs.fail(
+                    format!("C12:range() of a valid date-time fails:{}", if matches!(c.frac, Some((_, 6))) { "precise" } else { "partial" }),
+                    format!("{txt}: {er}"),
+                );
+            }
         }
         (e, l) => obs.fail("C12:bounds of a valid partial date-time fail", format!("{txt}: {e:?} {l:?}")),
     }
@@ -500,12 +525,18 @@ pub struct RangeCase {
     /// 0 date range, 1 time range, 2 date-time range
     kind: u8,
     parser: u8,
+    /// B is the same value as A (a range of one value, e.g. two identical precise instants)
+    #[serde(default)]
+    same: bool,
 }
 
 fn check_range(c: &RangeCase, obs: &mut Obs) {
     let mut a = dt_norm(c.a.clone());
-    let mut b = dt_norm(c.b.clone());
+    let mut b = dt_norm(if c.same { c.a.clone() } else { c.b.clone() });
     obs.nontrivial = c.form == 0;
+    if c.same {
+        obs.class("A==B");
+    }
     obs.class(format!("kind:{} form:{}", c.kind, c.form));
     match c.kind {
         0 => {
@@ -765,8 +796,8 @@ pub fn run(ctx: &Ctx) {
         "ranges",
         "range texts A-B, A-, -B for dates, times and date-times (same time-zone kind on both bounds, full dates for date-times so the text is unambiguous; A ordered before B): parsed range == (earliest A, latest B), open ends respected; non-trivial = closed range",
         || {
-            (dt_strategy(), dt_strategy(), 0u8..3, 0u8..3, 0u8..3)
-                .prop_map(|(a, b, form, kind, parser)| RangeCase { a, b, form, kind, parser })
+            (dt_strategy(), dt_strategy(), 0u8..3, 0u8..3, 0u8..3, proptest::bool::weighted(0.2))
+                .prop_map(|(a, b, form, kind, parser, same)| RangeCase { a, b, form, kind, parser, same })
                 .boxed()
         },
         ctx.cases(40_000, 800_000),
